@@ -1,6 +1,7 @@
 (** C26 — property theorems only. *)
 From Coq Require Import List ZArith NArith.
 From C33 Require Import C25.Model C26.Model C26.Proofs.
+From C33 Require Import C26.ModelKv C26.SpecIdx C26.ProofsIdx C26.ProofsRun C26.ProofsKv C26.ProofsPara C26.ProofsTop.
 Import ListNotations.
 Open Scope Z_scope.
 
@@ -35,3 +36,207 @@ Theorem C26_nonvacuous :
   get_seq (seq_state s) 3 = Some (2%N, false).
 Proof. exact seq_example. Qed.
 Print Assumptions C26_nonvacuous.
+
+(** * The key-level store (ModelKv.v): hash index, range query, para chain *)
+
+(** With saveSequence on (main chain or para chain), the node's own records at
+    key level are the numbered log of Model.v: so the three theorems above
+    speak about what GetBlockSequence / LoadBlockLastSequence read. *)
+Theorem C26_kv_refines_log : forall c es, c_save c = true ->
+  load_last c (kv_of c es) = lastseq (store_of (map ev_of es)) /\
+  forall i, get_block_sequence c (kv_of c es) i = get_seq (store_of (map ev_of es)) i.
+Proof. exact kv_refines_log. Qed.
+Print Assumptions C26_kv_refines_log.
+
+Theorem C26_kv_refines_log_run : forall fin g order,
+  let s := run fin g order in
+  lastseq (seq_state s) = load_last main_conf (kv_state main_conf s) /\
+  forall i, get_block_sequence main_conf (kv_state main_conf s) i = get_seq (seq_state s) i.
+Proof. exact run_kv_refines. Qed.
+Print Assumptions C26_kv_refines_log_run.
+
+(** After every delivery history no block occurs twice on the best chain. *)
+Theorem C26_best_chain_no_repeat : forall fin g order, NoDup (main (run fin g order)).
+Proof. exact run_main_nodup. Qed.
+Print Assumptions C26_best_chain_no_repeat.
+
+(** GetSequenceByHash: no entry exactly for the blocks that were never
+    connected (such a block is not on the best chain); otherwise the entry is
+    a recorded number whose record is an ADD of that block, and no later
+    record adds it again: the entry of a block that was added, deleted and
+    added again names the last add. *)
+Theorem C26_seq_by_hash_names_latest_add : forall fin g order h,
+  let s := run fin g order in
+  let d := kv_state main_conf s in
+  match get_sequence_by_hash main_conf d h with
+  | None => ~ In h (main s) /\ forall j, get_block_sequence main_conf d j <> Some (h, true)
+  | Some i => 0 <= i <= lastseq (seq_state s) /\
+              get_block_sequence main_conf d i = Some (h, true) /\
+              forall j, i < j -> get_block_sequence main_conf d j <> Some (h, true)
+  end.
+Proof. exact run_names_latest_add. Qed.
+Print Assumptions C26_seq_by_hash_names_latest_add.
+
+(** A block of the best chain has an entry; no delete record of it follows;
+    replaying the log up to and including that record gives the best chain
+    from that block down ([log] is what C26_replay_is_best_chain reads). *)
+Theorem C26_seq_by_hash_on_best_chain : forall fin g order h,
+  let s := run fin g order in
+  let d := kv_state main_conf s in
+  In h (main s) ->
+  exists log, all_some (read_log (seq_state s)) = Some log /\
+  exists i above below,
+    get_sequence_by_hash main_conf d h = Some (Z.of_nat i) /\
+    main s = above ++ h :: below /\ ~ In h above /\
+    replay (firstn (S i) log) [] = Some (h :: below) /\
+    forall j, Z.of_nat i < j -> get_block_sequence main_conf d j <> Some (h, false).
+Proof. exact on_best_chain_log. Qed.
+Print Assumptions C26_seq_by_hash_on_best_chain.
+
+(** The entry is never removed on delete: a block with an entry is on the best
+    chain exactly when no delete record of it follows the entry. *)
+Theorem C26_seq_by_hash_off_chain_iff : forall fin g order h i,
+  let s := run fin g order in
+  let d := kv_state main_conf s in
+  get_sequence_by_hash main_conf d h = Some i ->
+  (In h (main s) <-> forall j, i < j -> get_block_sequence main_conf d j <> Some (h, false)).
+Proof. exact run_off_chain_iff. Qed.
+Print Assumptions C26_seq_by_hash_off_chain_iff.
+
+(** The entry of a hash is never removed and never goes down (any node that records). *)
+Theorem C26_index_entry_monotone : forall c es e h i, c_save c = true ->
+  get_sequence_by_hash c (kv_of c es) h = Some i ->
+  exists j, get_sequence_by_hash c (kv_of c (e :: es)) h = Some j /\ i <= j.
+Proof. exact index_monotone. Qed.
+Print Assumptions C26_index_entry_monotone.
+
+(** The oracle that Check.v evaluates on the node's replies is satisfied by
+    the model's reply for every history and every hash. *)
+Theorem C26_index_oracle_holds : forall fin g order h,
+  let s := run fin g order in
+  index_spec_b (rev (evs s)) (main s) h
+    (proc_get_seq_by_hash main_conf (kv_state main_conf s) (Some h)) = true.
+Proof. exact run_oracle. Qed.
+Print Assumptions C26_index_oracle_holds.
+
+(** GetBlockSequences against the log: every reply (errors, clipping at the
+    last sequence, nil items below 0, the int64 difference) is [range_spec]
+    of the log; a request inside 0..last for fewer than 1000 records returns
+    exactly that segment of the log, so pages put together give the log that
+    replays to the best chain. *)
+Theorem C26_range_query_is_log_segment : forall fin g order,
+  let s := run fin g order in
+  let d := kv_state main_conf s in
+  exists log, all_some (read_log (seq_state s)) = Some log /\
+  (forall st en, get_block_sequences main_conf d st en = range_spec (lastseq (seq_state s)) log st en) /\
+  (forall a n, (a + S n <= length log)%nat -> (n < 1000)%nat ->
+     get_block_sequences main_conf d (Z.of_nat a) (Z.of_nat (a + n)) =
+     (0%N, map Some (firstn (S n) (skipn a log)))).
+Proof. exact range_log_segment. Qed.
+Print Assumptions C26_range_query_is_log_segment.
+
+(** On a node that is not a para chain the "main sequence" queries read the same keys. *)
+Theorem C26_main_queries_alias : forall c d h n, c_para c = false ->
+  get_main_sequence_by_hash d h = get_sequence_by_hash c d h /\
+  get_block_by_main_sequence d n = get_block_sequence c d n /\
+  load_last_main d = load_last c d.
+Proof. exact main_alias. Qed.
+Print Assumptions C26_main_queries_alias.
+
+(** isRecordBlockSequence = false (not a para chain): nothing is written, every
+    read finds nothing, every range request from 0 up is ErrStartHeight. *)
+Theorem C26_no_recording_no_log : forall fin g order n h st en,
+  let d := kv_state norec_conf (run fin g order) in
+  d = [] /\ load_last norec_conf d = -1 /\ get_block_sequence norec_conf d n = None /\
+  get_sequence_by_hash norec_conf d h = None /\
+  (0 <= st -> get_block_sequences norec_conf d st en = (1%N, [])).
+Proof. exact norec_nothing. Qed.
+Print Assumptions C26_no_recording_no_log.
+
+(** X -> Y -> X: block 1 is connected (sequence 1), disconnected (24) and
+    connected again (51): its entry names 51; block 13 left the chain and keeps
+    its entry. *)
+Theorem C26_readd_nonvacuous :
+  let g := mkB 0 99 0 1 in
+  let order := chain_blocks 1 0 12 1 ++ chain_blocks 13 0 13 1 ++ chain_blocks 26 12 2 13 in
+  let s := run 0 g order in
+  let d := kv_state main_conf s in
+  hd 0%N (main s) = 27%N /\ In 1%N (main s) /\
+  get_block_sequence main_conf d 1 = Some (1%N, true) /\
+  get_block_sequence main_conf d 24 = Some (1%N, false) /\
+  get_sequence_by_hash main_conf d 1 = Some 51 /\
+  get_sequence_by_hash main_conf d 13 = Some 25 /\ ~ In 13%N (main s) /\
+  load_last main_conf d = 64.
+Proof. exact readd_example. Qed.
+Print Assumptions C26_readd_nonvacuous.
+
+(** * Para-chain nodes (ProcAdd/DelParaChainBlockMsg, pid "self") *)
+
+(** With isRecordBlockSequence on, the para-chain node's own log ("ParaSeq:")
+    has every property of a main-chain node's: numbered 0..last, replays to the
+    best chain, by-hash entry = latest add with the same facts, range query =
+    [range_spec] — whatever sequence numbers the caller hands in. *)
+Theorem C26_para_own_log : forall g ops,
+  let c := mkConf true true in
+  let s := prun c g ops in
+  let d := pdb s in
+  let ch := map bid (pchain s) in
+  exists log,
+    load_last c d = Z.of_nat (length log) - 1 /\
+    (forall i, get_block_sequence c d i = log_at log i) /\
+    replay log [] = Some ch /\
+    (forall h, get_sequence_by_hash c d h = idx_of h (rev log) /\ idx_fact (rev log) ch h) /\
+    (forall st en, get_block_sequences c d st en = range_spec (Z.of_nat (length log) - 1) log st en).
+Proof. exact para_own_log. Qed.
+Print Assumptions C26_para_own_log.
+
+(** Without it a para-chain node has no log of its own. *)
+Theorem C26_para_norec_no_own_log : forall c, c_para c = true -> c_save c = false ->
+  forall tr n h,
+  load_last c (kv_of c tr) = -1 /\ get_block_sequence c (kv_of c tr) n = None /\
+  get_sequence_by_hash c (kv_of c tr) h = None.
+Proof. exact para_norec_own. Qed.
+Print Assumptions C26_para_norec_no_own_log.
+
+(** The records kept under the caller's sequence numbers are NOT allocated by
+    the store: numbers may have gaps, and a number handed in twice overwrites.
+    Full statement (reading them in key order replays to the best chain) ... *)
+Definition C26_para_main_seq_replay_full : Prop :=
+  forall c g ops, c_para c = true ->
+    let s := prun c g ops in
+    replay (scan_main (pdb s) (-1) (Z.to_nat (load_last_main (pdb s) + 2))) [] = Some (map bid (pchain s)).
+
+(** ... is false: a delete handed in with the number of the add record
+    (BlockChain.Rollback does this on a para chain) replaces the add record. *)
+Theorem C26_para_main_seq_replay_refuted : ~ C26_para_main_seq_replay_full.
+Proof. exact para_main_refuted. Qed.
+Print Assumptions C26_para_main_seq_replay_refuted.
+
+(** It holds when the numbers of the executed operations increase
+    ([para_guard_b], computed from the run): then LastSequence is the highest
+    number, the records read in key order from the genesis record's -1 up to it
+    replay to the best chain, and GetMainSequenceByHash is the number handed in
+    with the latest add of the block. *)
+Theorem C26_para_main_seq_replay_partial : forall c g ops, c_para c = true ->
+  para_guard_b c g ops = true ->
+  let s := prun c g ops in
+  let d := pdb s in
+  let tr := ptrace c g ops in
+  replay (scan_main d (-1) (Z.to_nat (load_last_main d + 2))) [] = Some (map bid (pchain s)) /\
+  (forall e, In e tr -> sev_seq e <= load_last_main d) /\
+  (forall h, get_main_sequence_by_hash d h = midx_of h tr).
+Proof. exact para_main_partial. Qed.
+Print Assumptions C26_para_main_seq_replay_partial.
+
+Theorem C26_para_nonvacuous :
+  let c := mkConf true true in
+  let g := mkB 0 99 0 1 in
+  let b1 := mkB 1 0 1 1 in let b2 := mkB 2 1 2 1 in let b3 := mkB 3 1 2 1 in
+  let ops := [PAdd b1 0; PAdd b2 3; PDel b2 4; PAdd b3 9; PDel b3 10; PAdd b2 11; PNil true; PDel b1 12] in
+  let s := prun c g ops in
+  para_guard_b c g ops = true /\ map bid (pchain s) = [2; 1; 0]%N /\
+  load_last_main (pdb s) = 11 /\ get_main_sequence_by_hash (pdb s) 2 = Some 11 /\
+  get_sequence_by_hash c (pdb s) 2 = Some 6 /\ get_block_by_main_sequence (pdb s) 5 = None /\
+  get_block_by_main_sequence (pdb s) 4 = Some (2%N, false).
+Proof. exact para_example. Qed.
+Print Assumptions C26_para_nonvacuous.
